@@ -9,7 +9,7 @@ class P(StreamProperty):
     theorems = ['C03_success_is_rank_test', 'C03_outcome_payload_free', 'C03_solve_unique', 'C03_solve_sound', 'C03_solve_iff_full_rank',
                 'C03_finish_ok_iff_determined', 'C03_determined_by_received', 'C03_few_equations_undetermined']
     rule = ('LDPC decoder sessions followed by of_finish_decoding: all 2^n receive sets for n<=nmax over a grid (k 1..8, r 3..8, N1 3..5, several seeds), '
-            'each in increasing / shuffled order, with and without duplicate submissions (the set is what counts) and through both APIs, plus sampled blocks (k up to 600 quick / 5000 thorough) with loss rates around the threshold; '
+            'each in increasing / shuffled order, with and without duplicate submissions (the set is what counts) and through both APIs, plus sampled blocks (k up to 600 quick / 5000 thorough) with loss rates around the threshold, plus staged sessions in which of_finish_decoding is called two to four times with more symbols submitted in between (checked after each call until one of them has run the elimination and failed); '
             'oracle (independent of the model): completion after finish <=> the GF(2) rank condition "unknown columns of H have full column rank", computed in Python '
             'from the matrix the session itself dumped; non-trivial = cases that iterative decoding alone did not complete')
 
@@ -39,6 +39,8 @@ class P(StreamProperty):
         lastnull = None
         for l, o in zip(c.lines, c.impl):
             if l.startswith('ctrl') and 'lastnull' in l: lastnull = kv(o).get('v') == '1'
+        if c.meta.get('staged'):
+            return self.oracle_staged(c, H, lastnull)
         if lastnull: recv.add(cfg.n - 1)
         comp = [(i, kv(o).get('c') == '1') for i, (l, o) in enumerate(zip(c.lines, c.impl)) if l.startswith('complete')]
         fin = [(i, kv(o).get('st')) for i, (l, o) in enumerate(zip(c.lines, c.impl)) if l.startswith('finish')]
@@ -64,6 +66,50 @@ class P(StreamProperty):
                     if any(src[j][1] != cw[j] for j in src) or len(src) != cfg.k:
                         return [('c03:wrong-solution', 'ML decoding completed with a wrong or missing symbol', i)]
         return []
+
+    def oracle_staged(self, c, H, lastnull):
+        """several of_finish_decoding calls in one session: after each one, completion <=> the symbols received so far determine the block,
+        as long as no earlier call ran (and failed) the Gaussian elimination, which consumes the equations"""
+        cfg = c.meta['cfg']
+        recv = set([cfg.n - 1]) if lastnull else set()
+        consumed = False
+        cw = case_codeword(c)
+        nl = len(c.impl)
+        for i, l in enumerate(c.lines[:nl]):
+            f = l.split()
+            if f[0] == 'recv' and f[1] == '0' and int(f[2]) < cfg.n: recv.add(int(f[2]))
+            if f[0] == 'avail' and f[1] == '0' and f[2] != '-': recv |= set(int(x) for x in f[2].split(',') if int(x) < cfg.n)
+            if f[0] == 'finish' and f[1] == '0' and i + 1 < nl and c.lines[i + 1].startswith('complete'):
+                after = kv(c.impl[i + 1]).get('c') == '1'
+                det = pyref.determined(H, recv, cfg.n)
+                K = pyref.closure(H, recv)
+                unk = cfg.n - len(K); nrows = sum(1 for row in H if row - K)
+                if c.meta.get('it_complete') is None: c.meta['it_complete'] = False
+                c.meta['cls'] = 'staged'
+                if not consumed:
+                    if det and not after:
+                        return [('c03:solvable-not-decoded:staged', 'the source symbols are uniquely determined by the %d symbols received so far but this of_finish_decoding '
+                                 '(%s; an earlier one had failed for lack of equations) left decoding incomplete' % (len(recv), kv(c.impl[i]).get('st')), i)]
+                    if after and not det:
+                        return [('c03:decoded-not-determined:staged', 'decoding completed although the symbols received so far do not determine the block', i)]
+                    if not det and nrows >= unk:
+                        consumed = True     # the elimination ran and failed: later calls are outside the property
+                if after:
+                    if cw and i + 2 < nl and c.lines[i + 2].startswith('sources'):
+                        src = parse_sources(kv(c.impl[i + 2]).get('src', ''))
+                        if any(src[j][1] != cw[j] for j in src) or len(src) != cfg.k:
+                            return [('c03:wrong-solution:staged', 'decoding completed with a wrong or missing symbol after several of_finish_decoding calls', i + 2)]
+                    break
+        return []
+
+    def mk_staged(self, name, cfg, stages):
+        b = ['new 0 3 2', cfg.params_line(0), 'ctrl 0 lastnull', cfg.payload_line(0), 'cwdump 0',
+             'new 1 3 1', cfg.params_line(1), 'matrix 1', 'release 1']
+        for st in stages:
+            b += ['recv 0 %d' % e for e in st] + ['finish 0', 'complete 0', 'sources 0']
+        b += ['release 0']
+        c = corr.mk(name, b); c.meta = {'cfg': cfg, 'order': [e for st in stages for e in st], 'api': 'stream', 'finish': True, 'cb': 'none', 'staged': True}
+        return c
 
     def mk(self, name, cfg, order, api):
         b = ['new 0 3 2', cfg.params_line(0), 'ctrl 0 lastnull', cfg.payload_line(0), 'cwdump 0',
@@ -109,6 +155,24 @@ class P(StreamProperty):
                 if reps: dups.append(rng.choice(reps))
                 order = order + dups
             cases.append(self.mk('b%d' % j, cfg, order, rng.choice(['stream', 'table']) if j % 2 == 0 else 'stream'))
+        # staged sessions: of_finish_decoding called too early (it fails for lack of equations and keeps the system), more symbols, again
+        nst = 400 if tier == 'quick' else 6000
+        for j in range(nst):
+            if j % 3 == 0:
+                k = rng.randint(3, 12); r = rng.randint(max(3, k - 2), k + 6)
+            else:
+                k = rng.randint(8, 60); r = max(3, int(k * rng.choice([0.5, 1.0, 1.25, 2.0])))
+            cfg = gens.Cfg('ldpc', k, r, N1=rng.choice([3, 4, 5]) if r >= 5 else 3, seed=rng.randint(1, 2 ** 31 - 2),
+                           payload='rand', pseed=j, length=rng.choice([1, 4]))
+            perm = list(range(cfg.n)); rng.shuffle(perm)
+            a1 = rng.randint(1, max(1, k // 2))                       # far too few: no equation can even start
+            a2 = min(cfg.n, max(a1 + 1, k + rng.randint(-2, 3)))      # around the threshold
+            stages = [perm[:a1], perm[a1:a2]]
+            if j % 2 == 0 and a2 < cfg.n:
+                a3 = min(cfg.n, a2 + rng.randint(1, 4)); stages.append(perm[a2:a3])
+            if j % 5 == 0:
+                mid = rng.randint(1, max(1, a1)); stages = [perm[:mid], perm[mid:a1]] + stages[1:] if mid < a1 else stages
+            cases.append(self.mk_staged('g%d' % j, cfg, [st for st in stages if st]))
         return cases
 
     def extra_stats(self, cases, res):
